@@ -147,6 +147,9 @@ def numeric_case(draw):
     custom = draw(st.booleans())
     dim = draw(st.sampled_from(["len", "len", "none", "area", "time", "vel", "none", "freq"]))
     e = draw(expr(dim, custom, draw(st.integers(1, 3))))
+    lead_minus = draw(st.integers(0, 7)) == 0
+    if lead_minus:
+        e = ["chain", ["lneg", draw(atom(dim, custom))], [[draw(st.sampled_from(["+", "-"])), ["par", e]]]]
     units = (REQ_NONE if dim == "none" else list(UNITS[dim])) + ([f"[{CUSTOM[0]}]"] if custom and dim == "len" else []) + \
         ([f"[{CUSTOM0[0]}]"] if custom and dim == "none" else [])
     mism = draw(st.integers(0, 7))
@@ -285,6 +288,9 @@ def render(e):
         return "{?" + e[1] + "}"
     if k == "par":
         return "(" + render(e[1]) + ")"
+    if k == "lneg":
+        # a blank-separated minus in front of the first operand (the only way to negate a reference)
+        return " - " + render(e[1])
     if k == "fn":
         return f"{e[1]}(" + render(e[2]) + ")"
     if k == "pow":
@@ -305,6 +311,8 @@ def evaluate(e, custom):
         return float(val) * F(u, custom)
     if k == "par":
         return evaluate(e[1], custom)
+    if k == "lneg":
+        return -evaluate(e[1], custom)
     if k == "fn":
         x = evaluate(e[2], custom)
         # ill-conditioned arguments amplify last-bit differences beyond any fixed tolerance: not this property's business
@@ -334,7 +342,7 @@ def magnitude(e, custom):
     k = e[0]
     if k in ("num", "ref"):
         return abs(evaluate(e, custom))
-    if k == "par":
+    if k in ("par", "lneg"):
         return magnitude(e[1], custom)
     if k == "fn":
         x, m = evaluate(e[2], custom), magnitude(e[2], custom)
@@ -367,8 +375,10 @@ def stats(e, acc=None):
         u = NODES[e[1]][2]
         if u:
             acc["units"].add(u)
-    elif k in ("par",):
+    elif k in ("par", "lneg"):
         stats(e[1], acc)
+        if k == "lneg":
+            acc["ops"].append("-")
     elif k == "fn":
         acc["ops"].append("fn")
         stats(e[2], acc)
@@ -504,6 +514,8 @@ def check_numeric(case, v):
     v.nt((len(s_["ops"]) >= 3 and len(prios) >= 2 and len(s_["units"]) >= 2) or s_["custom"] or
          (case["unit"] or "").startswith("[") or (case["dim"] == "none" and case["unit"]))
     v.label("numeric", "as_node" if case["as_node"] else "solver")
+    if e[0] == "chain" and e[1][0] == "lneg":
+        v.label("leading_blank_separated_minus")
     if s_["custom"] or (case["unit"] or "").startswith("["):
         v.label("custom_unit")
     if custom:
